@@ -193,6 +193,15 @@ func (c *conn) sread() (f *Frag, err error) {
 
 	f.Peer.FragDoneNumber++
 
+	// an error reply to one fragment of a split request fails the whole request;
+	// it must not reach the merge code, which expects an array / integer / status
+	if f.Error.Nil() && f.Type == codec.RspError {
+		switch f.Peer.Type {
+		case codec.ReqMget, codec.ReqMset, codec.ReqDel:
+			f.Error = codec.Error(f.RspBody)
+		}
+	}
+
 	if f.Error.Nil() {
 		switch f.Peer.Type {
 		case codec.ReqMget:
